@@ -1330,6 +1330,8 @@ func (is *indexSearch) updateTSIDsByOrSuffixes(tf *tagFilter) (*uint64set.Set, e
 			return tsids, err
 		}
 	}
+	// same as the slow path (scanTSIDsForTagFilter): deleted series are not part of the answer
+	tsids.Subtract(is.deleted)
 	return tsids, nil
 }
 
